@@ -272,6 +272,14 @@ def impl_create_cache(case, workdir, with_tree=True, name='cache.h5'):
         cache = read_cache(path)
         ser = None
         if with_tree:
+            from cell_type_mapper.type_assignment.utils import (
+                reconcile_taxonomy_and_markers)
+            try:
+                ok, _ = reconcile_taxonomy_and_markers(
+                    taxonomy_tree=tt, marker_cache_path=path)
+                cache['reconcile'] = 'ok' if ok else 'differentTaxonomies'
+            except Exception as e:     # noqa
+                cache['reconcile'] = classify_error(e)
             try:
                 ser = ('ok', serialize_markers(marker_cache_path=path,
                                                taxonomy_tree=tt))
